@@ -557,6 +557,73 @@ func s12() scenario {
 	}}
 }
 
+// ---- S13: a GENERATED SM9 encryption user key (its G2 point is as the key generation left it) shared at first use
+
+var s13Once sync.Once
+var s13CT, s13Wrapped []byte
+
+func s13() scenario {
+	return scenario{name: "S13-sm9-generated-encrypt-user-key", setup: func() *inst {
+		s5().setup()
+		m, err := sm9.UnmarshalEncryptMasterPrivateKeyASN1(s5MasterDER)
+		if err != nil {
+			panic(err)
+		}
+		s13Once.Do(func() {
+			s13CT, _ = sm9.Encrypt(&engine.DetReader{Lane: 90}, m.PublicKey(), s4UID, 3, []byte("generated key"), nil)
+			_, s13Wrapped, _ = m.PublicKey().WrapKey(&engine.DetReader{Lane: 91}, s4UID, 3, 16)
+		})
+		u, err := m.GenerateUserKey(s4UID, 3)
+		if err != nil {
+			panic(err)
+		}
+		before := hex.EncodeToString(u.Bytes())
+		in := &inst{outs: make([]string, 3)}
+		in.threads = []func(){
+			func() { in.outs[0] = hx(sm9.Decrypt(u, s4UID, s13CT, nil)) + "/" + hex.EncodeToString(u.Bytes()) },
+			func() { in.outs[1] = hx(sm9.UnwrapKey(u, s4UID, s13Wrapped, 16)) },
+			func() {
+				ke := u.NewKeyExchange(s4UID, []byte("Bob"), 16, false)
+				ra, err := ke.InitKeyExchange(&engine.DetReader{Lane: 92}, 3)
+				in.outs[2] = hx(ra, err) + "/" + hx(sm9.Decrypt(u, s4UID, s13CT, nil))
+			},
+		}
+		_ = before
+		return in
+	}}
+}
+
+// ---- S14: SM9 signature master key: user keys are issued while the master public key is used for the first time
+
+func s14() scenario {
+	return scenario{name: "S14-sm9-issue-user-keys-during-first-use", setup: func() *inst {
+		s4().setup()
+		m, err := sm9.UnmarshalSignMasterPrivateKeyASN1(s4MasterDER)
+		if err != nil {
+			panic(err)
+		}
+		pub := m.PublicKey()
+		in := &inst{outs: make([]string, 3)}
+		issueAndSign := func(i int, uid []byte, lane byte) func() {
+			return func() {
+				u, err := m.GenerateUserKey(uid, 1)
+				if err != nil {
+					in.outs[i] = "err:" + err.Error()
+					return
+				}
+				sig, err := u.Sign(&engine.DetReader{Lane: lane}, digest1, nil)
+				in.outs[i] = hx(sig, err) + fmt.Sprint(err == nil && sm9.VerifyASN1(u.MasterPublic(), uid, 1, digest1, sig))
+			}
+		}
+		in.threads = []func(){
+			func() { in.outs[0] = fmt.Sprint(sm9.VerifyASN1(pub, s4UID, 1, digest1, s4Sig1)) },
+			issueAndSign(1, []byte("Bob"), 95),
+			issueAndSign(2, s4UID, 96),
+		}
+		return in
+	}}
+}
+
 func allScenarios() []scenario {
-	return []scenario{s1(), s2(), s3(), s4(), s5(), s6a(), s6b(), s7(), s8(), s9(), s10(), s11(), s12()}
+	return []scenario{s1(), s2(), s3(), s4(), s5(), s6a(), s6b(), s7(), s8(), s9(), s10(), s11(), s12(), s13(), s14()}
 }
